@@ -86,6 +86,12 @@ Theorem C18_source_facts :
   gen_state_codes = map sstate_code [Opening; Open; HalfLocal; HalfRemote; Closed] /\
   gen_can_write_states = map sstate_code [Open; HalfRemote] /\
   gen_can_read_states = map sstate_code [Open; HalfLocal] /\
-  gen_meshconn_write_guarded = true.
+  gen_meshconn_write_guarded = true /\
+  (* the select structure of Stream.Read that [step] models: ARFirst takes
+     buffered data without blocking; the closed and remoteFin arms go through
+     ARDrain before EOF; the second select has a data arm; PushData is refused
+     once the stream is closed *)
+  gen_read_first_select_takes_buffered = true /\ gen_read_closed_arm_drains = true /\
+  gen_read_fin_arm_drains = true /\ gen_read_has_data_arm = true /\ gen_push_refused_when_closed = true.
 Proof. repeat split; reflexivity. Qed.
 Print Assumptions C18_source_facts.
